@@ -60,7 +60,35 @@ pub fn permute_file(file: &GFile, perm: &[usize]) -> GFile {
 ///    accepted, every order must still give the same outcome.
 pub fn family(rng: &mut Rng) -> (Vec<String>, &'static str) {
     const VALUES: &[&str] = &["#null", "1", "2", "\"a\"", "#true", "[]", "[1]", "@m", "(source-text @m)", "#null", "1"];
-    let which = rng.below(7);
+    let which = rng.below(9);
+    if which == 7 {
+        // a dependency chain of 130-260 scoped variables, one per statement of the source, each
+        // a call that reads its left neighbour; one stanza reads the far end, one reads them all
+        let link = *rng.pick(&["(plus 1 @a.zz_idx)", "(plus @a.zz_idx 1)", "(plus 0 0 1 @a.zz_idx 0)", "(length (concat [1] [ @a.zz_idx ]))"]);
+        let n = rng.range(130, 260);
+        let source: String = (0..n).map(|i| format!("v{}\n", i)).collect();
+        let st = vec![
+            format!("__SOURCE__{}", source),
+            "(module . (expression_statement) @first) { let @first.zz_idx = 0 }".to_string(),
+            format!("(module (expression_statement) @a . (expression_statement) @b) {{ let @b.zz_idx = {} }}", link),
+            "(module (expression_statement) @last .) @m { let @m.zz_tail = @last }".to_string(),
+            // the two readers match the same node with the same pattern: which of them is
+            // evaluated first follows the order of the stanzas
+            "(module (expression_statement)* @_ss) @m { node n attr (n) far = @m.zz_tail.zz_idx }".to_string(),
+            "(module (expression_statement)* @ss) @_m { for s in @ss { node n attr (n) i = s.zz_idx } }".to_string(),
+        ];
+        return (st, "long_chain_of_scoped_variables_read_from_both_ends");
+    }
+    if which == 8 {
+        // `print` of a local that is bound to a scoped variable another stanza defines
+        let user = *rng.pick(&[
+            "(module) @m { let k = @m.zz_kind print k node n attr (n) k = k }",
+            "(module) @m { let k = @m.zz_kind let j = k print \"kind\", j }",
+            "(module) @m { let k = [ @m.zz_kind ] for e in [1] { print k, e } }",
+        ]);
+        let st = vec![user.to_string(), "(module) @m { let @m.zz_kind = (node-type @m) }".to_string(), "(module) @m { node r attr (r) kind = @m.zz_kind }".to_string()];
+        return (st, "print_of_a_local_bound_to_a_forward_scoped_variable");
+    }
     if which == 6 {
         // the scope of a definition is a local variable that holds another scoped variable's value
         let st = vec![
@@ -152,7 +180,20 @@ fn run_family(rng: &mut Rng, out: &mut Out) {
     if stanzas[0].starts_with("__HEADER__") {
         header = stanzas.remove(0)["__HEADER__".len()..].to_string();
     }
-    let source = if rng.chance(1, 2) { "pass\n" } else { "x = 1\ny = 2\n" };
+    let mut own_source: Option<String> = None;
+    if stanzas[0].starts_with("__SOURCE__") {
+        own_source = Some(stanzas.remove(0)["__SOURCE__".len()..].to_string());
+    }
+    let source: &str = match &own_source {
+        Some(s) => s.as_str(),
+        None => {
+            if rng.chance(1, 2) {
+                "pass\n"
+            } else {
+                "x = 1\ny = 2\n"
+            }
+        }
+    };
     let tree = parse_python(source);
     let ti = TreeInfo::new(&tree);
     let functions = stdlib();
